@@ -1,5 +1,6 @@
 import Rivaas.Proto
 import Rivaas.Spec.Phases
+import Rivaas.Spec.Reverse
 /-
 Driver for C12. Case lines:
 
@@ -94,10 +95,58 @@ def modelObs (kinds : List Kind) (sched ids : List Nat) : Obs :=
     final := s.status.map (vis s),
     probes := probes s.core ids }
 
+/-! ### URLFor round trip:
+  <id> U <pattern> <n> { <name> <value> <escaped> <decodesBack> }*
+    => E | O <url> B | O <url> M <status> | O <url> T <n> { <name> <value> }*      (parameters in pattern order) -/
+
+open Rivaas.Reverse in
+def pUInput : P (Bytes × List (Bytes × Bytes × Bytes × Bool)) := do
+  lit "U"
+  let pat ← str
+  let vals ← list (do let n ← str; let v ← str; let e ← str; let b ← bool; pure (n, v, e, b))
+  pure (pat, vals)
+
+def pUObs : P Reverse.Spec.Obs := do
+  let k ← tok
+  if k == "E" then pure .error
+  else if k == "O" then do
+    let u ← str
+    let r ← tok
+    if r == "B" then pure (.notRequestURI u)
+    else if r == "M" then (do let _ ← nat; pure (.notRouted u))
+    else if r == "T" then (do let ps ← list (do let n ← str; let v ← str; pure (n, v)); pure (.routedBack u ps))
+    else failure
+  else failure
+
+def encUObs : Reverse.Spec.Obs → String
+  | .error => "E"
+  | .notRequestURI u => "O " ++ encStr u ++ " B"
+  | .notRouted u => "O " ++ encStr u ++ " M 404"
+  | .routedBack u ps =>
+    "O " ++ encStr u ++ s!" T {ps.length}" ++ String.join (ps.map fun (n, v) => " " ++ encStr n ++ " " ++ encStr v)
+
+/-- the model's observation of a round-trip case -/
+def modelU (pat : Bytes) (vals : List (Bytes × Bytes × Bytes × Bool)) : Reverse.Spec.Obs :=
+  let vs : Reverse.Vals := vals.map fun (n, v, e, _) => (n, v, e)
+  match Reverse.buildURL pat vs, Reverse.seenPath pat vs with
+  | some url, some seen =>
+    (match Reverse.matchRoute pat seen with
+     | some ps => .routedBack url ps
+     | none => .notRouted url)
+  | _, _ => .error
+
+def stepU (id : String) (inp obs : List String) : String :=
+  match runP pUInput inp, runP pUObs obs with
+  | some (pat, vals), some o =>
+    let m := modelU pat vals
+    verdict id (o == m) (Reverse.Spec.specOK pat vals o) "-" (encUObs m)
+  | _, _ => s!"{id} bad-case"
+
 def step (line : String) : String :=
   match splitCase line with
   | none => "? bad-line"
   | some (id, inp, obs) =>
+    if inp.head? == some "U" then stepU id inp obs else
     match runP pInput inp, runP pObs obs with
     | some (kinds, sched, ids), some o =>
       let m := modelObs kinds sched ids
